@@ -35,6 +35,7 @@ CHECKS = {
     },
     "C05": {
         "test": "TestC05",
+        "race_tier": {"test": "TestC05Free", "race": False, "budget": {"quick": 12, "thorough": 300}},
         "level": "exploration",
         "budget": {"quick": 45, "thorough": 900},
         "rule": ("each evaluation is one simulated history: 1-4 client tasks sending queries through FBDNSDB.ServeDNS and one operator "
